@@ -3,7 +3,9 @@ package harness
 import (
 	"fmt"
 	"os"
+	"os/exec"
 	"path/filepath"
+	"strings"
 
 	"pgregory.net/rapid"
 )
@@ -18,7 +20,8 @@ type Exec struct {
 	Acts []Action
 	Recs int
 	// Twins: further independent worlds executing the same history (C20)
-	Twins []*World
+	Twins   []*World
+	Digests []string // state digest after every action (C20)
 }
 
 func NewExec(prop string, cfg Config) *Exec {
@@ -42,6 +45,9 @@ func (e *Exec) Do(a Action) (*StepRec, []Violation) {
 	rec := e.W.Step(a)
 	e.Acts = append(e.Acts, a)
 	var vs []Violation
+	if e.Prop == "C20" {
+		e.Digests = append(e.Digests, rec.Post.Digest())
+	}
 	for i, tw := range e.Twins {
 		tr := tw.Step(a)
 		if tr.OK != rec.OK || tr.Post.Digest() != rec.Post.Digest() {
@@ -172,8 +178,14 @@ func (e *runEnv) historyProperty(t *rapid.T) {
 	kinds := map[string]int{}
 	kindsOK := map[string]int{}
 	errs := map[string]int{}
-	for i := 0; i < n && viol == nil && knownHit == nil; i++ {
-		a := g.GenAction(t)
+	prelude := g.GenPrelude(t)
+	for i := 0; i < n+len(prelude) && viol == nil && knownHit == nil; i++ {
+		var a Action
+		if i < len(prelude) {
+			a = prelude[i]
+		} else {
+			a = g.GenAction(t)
+		}
 		rec, vs := ex.Do(a)
 		g.Observe(rec)
 		kinds[a.Kind]++
@@ -197,6 +209,14 @@ func (e *runEnv) historyProperty(t *rapid.T) {
 		}
 	}
 	extra := ""
+	if viol == nil && knownHit == nil && e.prop == "C20" && e.tier == "thorough" && !e.failed && e.stats.Evaluations%40 == 7 {
+		// the same history in a second operating-system process
+		if v := otherProcessDigests(e, cfg, f, ex); v != nil {
+			viol = v
+		} else {
+			e.stats.Extra["replayed_in_second_process"]++
+		}
+	}
 	if viol == nil && knownHit == nil {
 		if tr := trailers[e.prop]; tr != nil {
 			var vs []Violation
@@ -260,6 +280,39 @@ func (e *runEnv) historyProperty(t *rapid.T) {
 			st.AddSample(map[string]interface{}{"config": cfg, "actions": ex.Acts, "classes": ex.O.Classes()})
 		}
 	}
+}
+
+// otherProcessDigests runs the history in a fresh process (this test binary, TestDigest) and
+// compares the per-step digests with the ones computed here.
+func otherProcessDigests(e *runEnv, cfg Config, f Focus, ex *Exec) *Violation {
+	tmp, err := os.CreateTemp("", "verif-c20-*.json")
+	if err != nil {
+		return nil
+	}
+	tmp.Close()
+	defer os.Remove(tmp.Name())
+	WriteReplay(tmp.Name(), Replay{Prop: "C20", Config: cfg, Focus: f, Actions: ex.Acts})
+	cmd := exec.Command(os.Args[0], "-test.run", "^TestDigest$")
+	cmd.Env = append(os.Environ(), "VERIF_REPLAY_FILE="+tmp.Name(), "VERIF_PROP=C20")
+	out, err := cmd.Output()
+	if err != nil {
+		return nil // inconclusive: never a violation
+	}
+	var got []string
+	for _, l := range strings.Split(string(out), "\n") {
+		if strings.HasPrefix(l, "DIGEST ") {
+			got = append(got, strings.TrimPrefix(l, "DIGEST "))
+		}
+	}
+	if len(got) != len(ex.Digests) {
+		return nil
+	}
+	for i := range got {
+		if got[i] != ex.Digests[i] {
+			return &Violation{Prop: "C20", Sig: "c20:diverge:process", Msg: fmt.Sprintf("a second process computes a different state after action %d (%s)", i, ex.Acts[i].Kind)}
+		}
+	}
+	return nil
 }
 
 // passive oracle: the property is decided by a trailer after the history
